@@ -8,6 +8,7 @@
 -/
 import Stfs.Model.Sys
 import Stfs.Model.Trig
+import Stfs.Model.Cut
 import Stfs.Spec.RefFs
 namespace Stfs.Driver
 open Stfs
@@ -266,6 +267,11 @@ def step (s : DState) (line : String) : DState × List String :=
   | "cfg" :: fields => ({ s with fs := parseCfg fields }, [])
   | "hist" :: id :: _ => ({ (default : DState) with fs := s.fs }, ["hist\t" ++ id])
   | "env" :: fields => ({ s with env := parseEnv fields }, [])
+  | "call" :: "@rebuildcut" :: c :: _ =>
+    -- a from-scratch rebuild of the current tape cut at byte c (the running instance is untouched)
+    let (idx, e) := rebuildCut s.fs.c s.w.tape (c.toNat?.getD 0)
+    (s, ["call\t@rebuildcut\t" ++ c, (match e with | none => "res\tok" | some e => "res\t" ++ encErr e)] ++
+        idx.rows.map encRow ++ ["refres\t-", "end"])
   | "call" :: "@snapshot" :: _ =>
     let s' := { s with snapshot := s.w.idx.rows }
     (s', ["call\t@snapshot", "res\tok"] ++ observe s.w s' ++ ["refres\t-"] ++ encTree s'.ref ++ ["end"])
